@@ -160,7 +160,7 @@ pub fn from_string_inner(ast: &DeriveInput) -> syn::Result<TokenStream> {
             static PHF: phf::Map<&'static str, #name> = phf::phf_map! {
                 #(#phf_exact_match_arms)*
             };
-            if let Some(value) = PHF.get(s).cloned() {
+            if let ::core::option::Option::Some(value) = PHF.get(s).cloned() {
                 return ::core::result::Result::Ok(value);
             }
         }
